@@ -1,4 +1,5 @@
-import G3D.Proofs.KernelsTieReal
+import G3D.Proofs.KTieKarea
+import G3D.Proofs.KTieKvecLen
 import G3D.Props.C06
 #print axioms G3D.Props.C06.polygon_area_is_shoelace
 #print axioms G3D.Props.C06.fan_centre_independent
@@ -14,5 +15,5 @@ import G3D.Props.C06
 #print axioms G3D.Props.C06.polyhedron_volume_is_surface_integral
 #print axioms G3D.Props.C06.face_from_any_vertex_order
 #print axioms G3D.Props.C06.polyhedron_moved_measures
-#print axioms G3D.KernelsTieReal.triangleArea_tie
-#print axioms G3D.KernelsTieReal.length_cast
+#print axioms G3D.KTie.Karea.triangleArea_tie
+#print axioms G3D.KTie.Kvec.length_cast
